@@ -218,6 +218,7 @@ inline bool check(pbt::Case &c, Log &log, const CheckOpts &o)
   };
   std::map<std::uint64_t, S> ss;
   std::size_t stopBegin = NONE, stopEnd = NONE;
+  std::vector<std::pair<std::size_t, std::size_t>> stops; // every [stop( , stop)] interval
   for (std::size_t i = 0; i < ev.size(); ++i)
   {
     auto &e = ev[i];
@@ -252,8 +253,14 @@ inline bool check(pbt::Case &c, Log &log, const CheckOpts &o)
       ss[e.sid].cleanups.push_back(i);
       ++ss[e.sid].nCleanup;
       break;
-    case K::StopBegin: stopBegin = i; break;
-    case K::StopEnd: stopEnd = i; break;
+    case K::StopBegin:
+      stopBegin = i;
+      stops.emplace_back(i, NONE);
+      break;
+    case K::StopEnd:
+      stopEnd = i;
+      if (!stops.empty()) stops.back().second = i;
+      break;
     default: break;
     }
   }
@@ -316,7 +323,10 @@ inline bool check(pbt::Case &c, Log &log, const CheckOpts &o)
       std::string origin = s.nAccept ? "accepted" : s.returnedSync != NONE ? "connectSync" : s.returned != NONE
                              ? (s.nConnect ? "connected" : "connect-unannounced") : "connected";
       std::size_t got = s.returned != NONE ? s.returned : s.returnedSync != NONE ? s.returnedSync : announce;
-      if (stopBegin != NONE && got != NONE && got > stopBegin && (s.returned != NONE || s.returnedSync != NONE))
+      bool duringStop = false;
+      for (auto &iv : stops)
+        if (got != NONE && got > iv.first && (iv.second == NONE || got < iv.second)) duringStop = true;
+      if (duringStop && (s.returned != NONE || s.returnedSync != NONE))
         return fail("C02/no-close/connect-ok-during-stop",
                     id + " was returned ok by a connect call issued while stop() was in progress (#" +
                       std::to_string(got) + ") and never received a close notification");
@@ -503,6 +513,7 @@ inline bool check(pbt::Case &c, Log &log, const CheckOpts &o)
     return fail("C02/gauge-nonzero-after-stop", "sessionsCurrent = " + std::to_string(o.gaugeAfterStop) +
                                                   " after the transport was stopped and every session closed");
   (void)stopEnd;
+  (void)stopBegin;
   return false;
 }
 
